@@ -1203,7 +1203,7 @@ func init() {
 	mc.Register(&mc.Prop{
 		ID:    "C15",
 		Level: "exploration",
-		Rule: cliStreamRule[1:] + " Command line: goalign mask with -s/-l, --pos, --unique --at-most, --ref-seq (none, a, b), --replace (not given, GAP, MAJ, Z, n), --no-gaps, --no-ref on every 2x3 alignment over {A,C,-} (protein alphabet: 2x2 in the quick tier) and two larger ones: the output must be what the documented library calls (RefCoordinates + Mask per window / position, MaskOccurences) give; a call the library refuses must be refused. " + "(also: five calls on a 4 x 2600 alignment under the controlled scheduler, preemption bound 1 — one execution unless the operation spawns goroutines;) bounded-exhaustive enumeration of calls on real alignments (alphabet fixed to nucleotide, AMBIG = N, and to amino acid, AMBIG = X; rows named a, b, c ...). " +
+		Rule: cliStreamRule[1:] + "(Free-running complement under the race detector: 8 goroutines doing this property's operations on objects of their own must get the values the same work gives alone.)  Command line: goalign mask with -s/-l, --pos, --unique --at-most, --ref-seq (none, a, b), --replace (not given, GAP, MAJ, Z, n), --no-gaps, --no-ref on every 2x3 alignment over {A,C,-} (protein alphabet: 2x2 in the quick tier) and two larger ones: the output must be what the documented library calls (RefCoordinates + Mask per window / position, MaskOccurences) give; a call the library refuses must be refused. " + "(also: five calls on a 4 x 2600 alignment under the controlled scheduler, preemption bound 1 — one execution unless the operation spawns goroutines;) bounded-exhaustive enumeration of calls on real alignments (alphabet fixed to nucleotide, AMBIG = N, and to amino acid, AMBIG = X; rows named a, b, c ...). " +
 			"Inputs (n rows x L columns, all alignments of the shape over the symbol set): 1x1, 1x2, 1x3, 2x1, 2x2, 3x1 and (Mask only) 1x4 over {A,C,-,N,.} (nt) / {A,C,-,X,.} (aa); " +
 			"2x3, 3x2, 4x1 and (MaskOccurences/MaskUnique only) 3x3, 4x2, 5x1 over {A,C,-,N} / {A,C,-,X}; Mask on 3x3 and 2x4 over {A,C,-} in the quick tier and over the four symbols in the thorough tier; " +
 			"thorough adds Mask on 4x2 and MaskOccurences/MaskUnique on 5x2 over the four symbols; plus the alignment without rows and 1, 2, 3 rows without columns. " +
@@ -1222,6 +1222,8 @@ func init() {
 			"a call that returns an error may have replaced selected cells already; cells outside the selection must be unchanged even then",
 			"a window with 0 <= start < L and length >= 0 must not fail ('truncated rather than failing'), whatever its length",
 		},
+		// free-running complement: goroutines that each own their objects must get what they get alone (harness/racepass)
+		Post: func(m *mc.Master) { m.RacePass("own-mask") },
 		Tasks: func(tier string) []mc.Task {
 			return append(append(c15Tasks(tier), cliStreamTasks("C15")...), c15CLITasks(tier == "thorough")...)
 		},
